@@ -2,7 +2,7 @@
 """Regression of the machinery itself: every stored seeded change must still be detected by the
 quick check of its property, every stored benign refactor must stay quiet.
 
-usage: tools/sweep.py [seeded|benign|all] [filter-substring]
+usage: tools/sweep.py [seeded|mutants|benign|all] [filter-substring]
 Runs in the scratch worktree /tmp/repo-seedtest (created from /repo HEAD when absent), never in /repo.
 Prints one line per patch; exit 0 iff everything is as expected."""
 import json, os, subprocess, sys, time
@@ -13,7 +13,7 @@ env = dict(os.environ, GOFLAGS="-mod=mod", GOPROXY="off", GOSUMDB="off", GOTOOLC
 
 BENIGN_PROPS = {
     "b1_": ["C01", "C02", "C03", "C05"], "b2_": ["C01", "C06", "C04", "C05"], "b3_": ["C02", "C03", "C05"],
-    "b4_": ["C01", "C04", "C05", "C02"], "b5_": ["C10", "C13", "C16"], "b6_": ["C11", "C12"], "b7_": ["C16"],
+    "b4_": ["C01", "C04", "C05", "C02"], "b5_": ["C10", "C13", "C16"], "b6_": ["C11", "C12"], "b7_": ["C16"], "b8_": ["C14", "C13", "C01"],
     "r1_": ["C01", "C02", "C03", "C04", "C05", "C06", "C13", "C12", "C14", "C16"],
     "r2_": ["C09", "C15", "C07", "C08", "C10", "C11", "C12", "C13"],
     "r3_": ["C16", "C14", "C13", "C06", "C12"],
@@ -40,6 +40,21 @@ def main():
         for name in sorted(os.listdir(os.path.join(ROOT, "seeded"))):
             meta = json.load(open(os.path.join(ROOT, "seeded", name, "meta.json")))
             jobs.append((os.path.join(ROOT, "seeded", name, "patch.diff"), [meta["property"]], 1, name))
+    if what in ("mutants", "all"):
+        # hand-written mutants (c<NN>_*.diff) and reverts of the repairs (revert_<commit>_*.diff: the properties of the
+        # fixed entries of known_findings.json with that commit)
+        d = os.path.join(ROOT, "selftest", "mutants")
+        fixed = {}
+        for e in json.load(open(os.path.join(ROOT, "known_findings.json")))["findings"]:
+            if e.get("commit"):
+                fixed.setdefault(e["commit"][:7], []).append(e["property"])
+        for name in sorted(os.listdir(d)):
+            if name.startswith("revert_"):
+                props = fixed.get(name.split("_")[1][:7], [])
+                for p_ in props:
+                    jobs.append((os.path.join(d, name), [p_], 1, name))
+            else:
+                jobs.append((os.path.join(d, name), ["C" + name[1:3]], 1, name))
     if what in ("benign", "all"):
         d = os.path.join(ROOT, "selftest", "benign")
         for name in sorted(os.listdir(d)):
